@@ -40,21 +40,32 @@ def run_invoker(spec):
     from lenskit.parallel import invoker
     model = c12_tasks.build_payload(spec["model"])
     watch_segments()
-    out = {"maps": []}
+    out = {"maps": [], "exit": None}
     during = None
-    with invoker(model, c12_tasks.task, n_jobs=spec["n_jobs"]) as inv:
-        out["invoker"] = type(inv).__name__
-        for tasks in spec["maps"]:
-            got, err = [], None
-            try:
-                for r in inv.map(iter(tasks)):
-                    got.append(r)
-            except Exception as e:
-                err = type(e).__name__
-            out["maps"].append({"results": got, "error": err})
-        during = {"children": len(mp.active_children()), "shm": len(shm_names())}
-    out["during"] = during
+    exit_got, exit_err = [], None
+    try:
+        with invoker(model, c12_tasks.task, n_jobs=spec["n_jobs"]) as inv:
+            out["invoker"] = type(inv).__name__
+            for tasks in spec["maps"]:
+                got, err = [], None
+                try:
+                    for r in inv.map(iter(tasks)):
+                        got.append(r)
+                except BaseException as e:          # incl. failures that are not Exception subclasses
+                    err = type(e).__name__
+                out["maps"].append({"results": got, "error": err})
+            during = {"children": len(mp.active_children()), "shm": len(shm_names())}
+            if spec.get("exit_map") is not None:
+                # this failure is NOT caught inside the block: it unwinds through __exit__
+                for r in inv.map(iter(spec["exit_map"])):
+                    exit_got.append(r)
+    except BaseException as e:
+        exit_err = type(e).__name__
+    # the state of the pool at the moment control is back with the caller
     out["after"] = {"children": len(mp.active_children()), "shm_left": shm_names(), "segments_created": len(OWN_SEGMENTS)}
+    out["during"] = during
+    if spec.get("exit_map") is not None:
+        out["exit"] = {"results": exit_got, "error": exit_err}
     return out
 
 
